@@ -569,6 +569,9 @@ func (e *VerifEtcd) Live() map[string]int {
 // timeout.
 func (e *VerifEtcd) Quiesce(expect []string, timeout time.Duration) bool {
 	deadline := time.Now().Add(timeout)
+	began := time.Now()
+	idleRounds := 0
+	lastIdle := time.Now()
 	for {
 		ok := true
 		e.mu.Lock()
@@ -583,6 +586,23 @@ func (e *VerifEtcd) Quiesce(expect []string, timeout time.Duration) bool {
 		for _, t := range expect {
 			if !have[t] {
 				ok = false
+			}
+		}
+		if !ok && e.cptr != "" {
+			// watchdog: an expected key has no stream and every watch goroutine of the cluster is parked in
+			// watchStream's select (nobody is loading, cooling down or setting a watch up): the watch / load
+			// for that key will never be issued - no point in waiting for the timeout
+			if time.Since(lastIdle) > 50*time.Millisecond {
+				lastIdle = time.Now()
+				if e.idle() {
+					idleRounds++
+				} else {
+					idleRounds = 0
+				}
+			}
+			if idleRounds >= 10 && time.Since(began) > time.Second {
+				e.mu.Unlock()
+				return false
 			}
 		}
 		if ok {
@@ -661,6 +681,43 @@ func (e *VerifEtcd) busy() bool {
 		}
 	}
 	return false
+}
+
+// idle: the cluster has watch goroutines and every one of them is parked in watchStream's select;
+// none is loading, cooling down after a failed Get, setting a watch up or about to start.
+func (e *VerifEtcd) idle() bool {
+	buf := make([]byte, 1<<20)
+	for {
+		n := runtime.Stack(buf, true)
+		if n < len(buf) {
+			buf = buf[:n]
+			break
+		}
+		buf = make([]byte, 2*len(buf))
+	}
+	parked := 0
+	for _, g := range strings.Split(string(buf), "\n\n") {
+		if strings.Contains(g, ".(*cluster).reload") || strings.Contains(g, ".(*cluster).monitor") {
+			if !strings.Contains(g, ".(*cluster).watchUntil(") && !strings.Contains(g, ".(*cluster).load(") {
+				return false // a reload / monitor in progress, or a watch goroutine that has not run yet (any cluster)
+			}
+		}
+		if strings.Contains(g, "threading.(*RoutineGroup).Run") && !strings.Contains(g, ".(*cluster).") {
+			return false // a goroutine of some routine group that has not reached its function yet
+		}
+		mine := strings.Contains(g, ".(*cluster).watchUntil("+e.cptr) || strings.Contains(g, ".(*cluster).load("+e.cptr) ||
+			strings.Contains(g, ".(*cluster).watch("+e.cptr)
+		if !mine {
+			continue
+		}
+		lines := strings.SplitN(g, "\n", 3)
+		if len(lines) < 2 || !strings.Contains(lines[0], "[select") ||
+			!strings.Contains(lines[1], ".(*cluster).watchStream("+e.cptr) {
+			return false
+		}
+		parked++
+	}
+	return parked > 0
 }
 
 // VerifBind tells the fake which cluster it serves (for busy()).
